@@ -252,6 +252,10 @@ pub struct ListenerId(usize);
 impl ListenerId {
     /// Creates a new `ListenerId`.
     pub fn next() -> Self {
+        #[cfg(libp2p_verif)]
+        if let Some(id) = crate::verif::next_listener_id() {
+            return ListenerId(id);
+        }
         ListenerId(NEXT_LISTENER_ID.fetch_add(1, Ordering::SeqCst))
     }
 }
